@@ -1,6 +1,6 @@
 (* No trace accepted by the thread model violates the trace monitors of Check/Sys.v. *)
 From Coq Require Import List Bool Arith Lia.
-From Pamiq Require Import Model.Threads Check.Sys Proofs.ThreadsInv.
+From Pamiq Require Import Model.Threads Check.Sys Proofs.ThreadsInv Proofs.ThreadsInv2.
 Import ListNotations.
 
 Section Mon.
@@ -23,7 +23,7 @@ Lemma ctl_ghost s l s' : ctl_step s l = Some s' ->
   | LClockResume => acked s' = false /\ clk s' = false /\ saving s' = saving s
   | LSaveB => acked s' = acked s /\ clk s' = clk s /\ saving s' = true
   | LSaveE | LSaveRaise => acked s' = acked s /\ clk s' = clk s /\ saving s' = false
-  | LSaveCondRaise | LInterrupt => acked s' = acked s /\ clk s' = clk s
+  | LSaveCondRaise | LInterrupt => acked s' = acked s /\ clk s' = clk s /\ saving s' = false
   | _ => acked s' = acked s /\ clk s' = clk s /\ saving s' = saving s
   end.
 Proof.
@@ -104,5 +104,174 @@ Qed.
 
 Theorem C01_monitor_holds tr s : run init tr = Some s -> C01_ok tr = true.
 Proof. intros H. unfold C01_ok. change false with (acked init). eapply c01_from; [apply inv_init|exact H]. Qed.
+
+(* ---------- C04 and C02: the monitors' counters are functions of the control thread's position ---------- *)
+Notation Inv2 := (Inv2 n).
+Notation started_of := (started_of n).
+Notation joined_of := (joined_of n).
+
+Definition is_start_bg (l : label) : bool := match l with LStart (TBg _) => true | _ => false end.
+Definition is_join_bg (l : label) : bool := match l with LJoin (TBg _) => true | _ => false end.
+
+Lemma ret_cont_counts k : started_of (ret_cont n with_web k) = n /\ joined_of (ret_cont n with_web k) = 0.
+Proof.
+  destruct k; unfold ret_cont, drain_pc, poll_pc, join_pc; destruct with_web; destruct (n =? 0) eqn:E; simpl; auto;
+    apply Nat.eqb_eq in E; auto.
+Qed.
+Lemma tp_return_counts ok ret k : started_of (tp_return n with_web ok ret k) = n /\ joined_of (tp_return n with_web ok ret k) = 0.
+Proof. unfold tp_return. destruct ret as [ap|]; [destruct ok|]; simpl; auto; apply ret_cont_counts. Qed.
+Lemma pcs_counts : started_of (drain_pc n with_web) = n /\ joined_of (drain_pc n with_web) = 0 /\
+                   started_of (poll_pc n) = n /\ joined_of (poll_pc n) = 0.
+Proof. unfold drain_pc, poll_pc; destruct with_web; destruct (n =? 0); simpl; auto. Qed.
+
+Lemma ctl_counts s l s' : ctl_step s l = Some s' ->
+  started_of (cp s') = started_of (cp s) + (if is_start_bg l then 1 else 0) /\
+  joined_of (cp s') = joined_of (cp s) + (if is_join_bg l then 1 else 0).
+Proof.
+  destruct pcs_counts as (Q1 & Q2 & Q3 & Q4).
+  unfold Threads.ctl_step. intros H.
+  destruct (cp s) eqn:Hc; destruct l; try discriminate;
+    repeat match type of H with
+           | context [match ?x with _ => _ end] => destruct x eqn:?; try discriminate
+           end;
+    inversion H; subst; clear H;
+    unfold exc_goto, ctl, set_cp, set_res, set_misc, set_pp, set_bp, after_pool, start_pool; simpl;
+    try match goal with |- context [ret_cont n with_web ?k] => destruct (ret_cont_counts k) as (-> & ->) end;
+    try match goal with |- context [tp_return n with_web ?ok ?ret ?k] => destruct (tp_return_counts ok ret k) as (-> & ->) end;
+    rewrite ?Q1, ?Q2, ?Q3, ?Q4;
+    repeat match goal with |- context [if ?b then _ else _] => destruct b eqn:? end; simpl;
+    repeat match goal with Hx : (_ && _) = true |- _ => apply andb_true_iff in Hx; destruct Hx end;
+    repeat match goal with Hx : (_ =? _) = true |- _ => apply Nat.eqb_eq in Hx end;
+    try (split; lia); try (rewrite Hc; simpl; split; lia).
+Qed.
+
+Lemma bg_acts s i l s' : Inv s -> Inv2 s -> i < n -> bg_step s i l = Some s' -> joined_of (cp s) < started_of (cp s).
+Proof.
+  intros HI (_ & _ & J3 & _) Hi H.
+  assert (Hlive : bp s i <> BNotStarted /\ bp s i <> BDone).
+  { unfold Threads.bg_step in H. split; intros E; rewrite E in H; destruct l; discriminate. }
+  destruct Hlive as [L1 L2].
+  assert (Hj : joined_of (cp s) <= i).
+  { destruct (Nat.le_gt_cases (joined_of (cp s)) i); [assumption|]. exfalso. apply L2. apply J3. assumption. }
+  assert (Hs : i < started_of (cp s)).
+  { destruct HI as (_ & _ & _ & _ & _ & C). unfold CI in C. unfold Proofs.ThreadsInv2.started_of.
+    destruct (cp s); try exact Hi; try (exfalso; apply L1; apply C; fail).
+    destruct C as (_ & _ & NS). destruct (Nat.lt_ge_cases i k); [assumption|]. exfalso. apply L1. apply NS. assumption. }
+  lia.
+Qed.
+
+Lemma c02_from : forall tr s s', Inv s -> Inv2 s -> run s tr = Some s' ->
+  c02_mon (started_of (cp s)) (joined_of (cp s)) tr = true.
+Proof.
+  induction tr as [|[t l] tr IH]; intros s s' HI HJ H; [reflexivity|].
+  simpl in H. destruct (step s t l) as [s1|] eqn:E; [|discriminate].
+  pose proof (inv_step _ _ _ _ _ _ _ _ _ HI E) as HI1.
+  pose proof (inv2_step _ _ _ _ _ _ _ _ _ HI HJ E) as HJ1.
+  specialize (IH s1 s' HI1 HJ1 H).
+  unfold Threads.step in E. cbn [c02_mon].
+  destruct t as [|i|j| |].
+  - destruct (ctl_counts _ _ _ E) as (Es & Ej). rewrite Es, Ej in IH.
+    destruct l; cbn [is_start_bg is_join_bg] in IH; rewrite ?Nat.add_0_r in IH; try exact IH.
+    + destruct t; cbn [is_start_bg] in IH; rewrite ?Nat.add_0_r, ?Nat.add_1_r in IH; exact IH.
+    + destruct t; cbn [is_join_bg] in IH; rewrite ?Nat.add_0_r, ?Nat.add_1_r in IH; exact IH.
+    + (* the main thread exits: only from CMainExit, where everything has been joined *)
+      rewrite IH, andb_true_r. unfold Threads.ctl_step in E. destruct (cp s) eqn:Hc; try discriminate.
+      simpl. apply Nat.eqb_refl.
+  - destruct (i <? n) eqn:Hi; [|discriminate]. apply Nat.ltb_lt in Hi.
+    pose proof (bg_acts _ _ _ _ HI HJ Hi E) as Hlt.
+    destruct (bg_frame kind _ _ _ _ E) as (_ & _ & _ & Ec & _). rewrite Ec in IH. rewrite IH, andb_true_r.
+    apply Nat.ltb_lt. exact Hlt.
+  - destruct (j <? n); [|discriminate]. apply pool_cases in E.
+    assert (Ec : cp s1 = cp s) by (destruct E as [(_ & _ & ->)|[(_ & ->)|[(nt & b & _ & _ & ->)|(_ & ->)]]]; reflexivity).
+    rewrite Ec in IH. exact IH.
+  - assert (Ec : cp s1 = cp s).
+    { unfold client_step in E. destruct (client_done s); [discriminate|].
+      destruct l; try discriminate;
+        repeat match type of E with context [if ?x then _ else _] => destruct x eqn:?; try discriminate end;
+        inversion E; subst; reflexivity. }
+    rewrite Ec in IH. exact IH.
+  - assert (Ec : cp s1 = cp s).
+    { unfold web_step in E. destruct (web s) as [|[|w]]; try discriminate. destruct l; try discriminate.
+      destruct raised; [discriminate|]. inversion E; subst; reflexivity. }
+    rewrite Ec in IH. exact IH.
+Qed.
+
+Theorem C02_monitor_holds tr s : run init tr = Some s -> c02_mon 0 0 tr = true.
+Proof. intros H. apply (c02_from tr init s); [apply inv_init|apply inv2_init|exact H]. Qed.
+
+(* ---------- C04 ---------- *)
+Lemma saving_state s : Inv s -> Inv2 s -> saving s = true ->
+  (acked s = true /\ forall i, i < n -> Qb (bp s i) = true) \/ (forall i, i < n -> bp s i = BDone).
+Proof.
+  intros HI (J1 & J2 & J3 & J4 & _) Hs. specialize (J4 Hs).
+  destruct (cp s) eqn:Hc; simpl in J4; try discriminate.
+  - left. assert (Ha : acked s = true) by (apply J1; try rewrite Hc; reflexivity).
+    destruct HI as (_ & _ & C & _). destruct (C Ha) as (_ & _ & Q). auto.
+  - right. intros i Hi. apply J3. try rewrite Hc. exact Hi.
+Qed.
+
+Lemma c04_from : forall tr s s', Inv s -> Inv2 s -> run s tr = Some s' ->
+  c04_mon (acked s) (saving s) (started_of (cp s)) (joined_of (cp s)) tr = true.
+Proof.
+  induction tr as [|[t l] tr IH]; intros s s' HI HJ H; [reflexivity|].
+  simpl in H. destruct (step s t l) as [s1|] eqn:E; [|discriminate].
+  pose proof (inv_step _ _ _ _ _ _ _ _ _ HI E) as HI1.
+  pose proof (inv2_step _ _ _ _ _ _ _ _ _ HI HJ E) as HJ1.
+  specialize (IH s1 s' HI1 HJ1 H).
+  unfold Threads.step in E. cbn [c04_mon].
+  destruct t as [|i|j| |].
+  - destruct (ctl_counts _ _ _ E) as (Es & Ej). rewrite Es, Ej in IH. pose proof (ctl_ghost _ _ _ E) as G.
+    assert (Hns : (exists k, cp s = CSave2 (fst k) (snd k)) \/ cp s = CFinSave1 \/ saving s = false).
+    { destruct (saving s) eqn:Hs; [|auto]. destruct HJ as (_ & _ & _ & J4 & _). specialize (J4 Hs).
+      destruct (cp s); simpl in J4; try discriminate; [left; exists (ap, k); reflexivity | right; left; reflexivity]. }
+    destruct l; cbn [is_start_bg is_join_bg] in IH; rewrite ?Nat.add_0_r in IH; destruct G as (Ga & Gk & Gs).
+    (* labels the monitor does not look at *)
+    all: try (rewrite Ga, Gs in IH; exact IH).
+    (* thread starts and joins *)
+    all: try (destruct t; cbn [is_start_bg is_join_bg] in IH; rewrite ?Nat.add_0_r, ?Nat.add_1_r, ?Ga, ?Gs in IH; exact IH).
+    (* releasing the clock / the threads, raising: never while a state is being written *)
+    all: try (assert (Hs0 : saving s = false) by
+                (destruct Hns as [((ap0, k0) & Hc)|[Hc|Hs0]]; [| |exact Hs0]; unfold Threads.ctl_step in E; rewrite Hc in E; discriminate)).
+    (* Set e *)
+    all: try (destruct e; try (rewrite Ga, Gs in IH; exact IH);
+              assert (Ha : acked s = false) by
+                (unfold Threads.ctl_step in E; destruct (cp s) eqn:Hc; try discriminate;
+                 destruct HI as (_ & _ & _ & _ & _ & C); unfold CI in C; rewrite Hc in C; tauto);
+              rewrite Hs0; cbn [negb andb]; rewrite Ga, Gs, Ha, Hs0 in IH; exact IH).
+    (* ClockResume *)
+    all: try (rewrite Hs0; cbn [negb andb]; rewrite Ga, Gs, Hs0 in IH; exact IH).
+    (* raising *)
+    all: try (rewrite Ga, Gs in IH; rewrite Hs0; exact IH).
+    (* SaveB: inside an acknowledged pause, or after all joins *)
+    rewrite Ga, Gs in IH. rewrite IH, andb_true_r.
+    unfold Threads.ctl_step in E. destruct (cp s) eqn:Hc; try discriminate.
+    + destruct HJ as (J1 & _). rewrite Hc in J1. rewrite (J1 eq_refl). reflexivity.
+    + simpl. rewrite Nat.eqb_refl. apply orb_true_r.
+  - destruct (i <? n) eqn:Hi; [|discriminate]. apply Nat.ltb_lt in Hi.
+    destruct (bg_ghost _ _ _ _ E) as (Ga & Gs & _).
+    destruct (bg_frame kind _ _ _ _ E) as (_ & _ & _ & Ec & _). rewrite Ga, Gs, Ec in IH. rewrite IH, andb_true_r.
+    destruct (saving s) eqn:Hs; [|reflexivity].
+    destruct (saving_state s HI HJ Hs) as [(_ & Q)|D].
+    + eapply bg_quiescent_labels; [apply Q; exact Hi|exact E].
+    + exfalso. unfold Threads.bg_step in E. rewrite (D i Hi) in E. destruct l; discriminate.
+  - destruct (j <? n); [|discriminate]. destruct (pool_ghost _ _ _ _ E) as (Ga & Gs & _). apply pool_cases in E.
+    assert (Ec : cp s1 = cp s) by (destruct E as [(_ & _ & ->)|[(_ & ->)|[(nt & b & _ & _ & ->)|(_ & ->)]]]; reflexivity).
+    rewrite Ga, Gs, Ec in IH. exact IH.
+  - destruct (client_ghost _ _ _ E) as (Ga & Gs & _).
+    assert (Ec : cp s1 = cp s).
+    { unfold client_step in E. destruct (client_done s); [discriminate|].
+      destruct l; try discriminate;
+        repeat match type of E with context [if ?x then _ else _] => destruct x eqn:?; try discriminate end;
+        inversion E; subst; reflexivity. }
+    rewrite Ga, Gs, Ec in IH. exact IH.
+  - destruct (web_ghost _ _ _ E) as (Ga & Gs & _).
+    assert (Ec : cp s1 = cp s).
+    { unfold web_step in E. destruct (web s) as [|[|w]]; try discriminate. destruct l; try discriminate.
+      destruct raised; [discriminate|]. inversion E; subst; reflexivity. }
+    rewrite Ga, Gs, Ec in IH. exact IH.
+Qed.
+
+Theorem C04_monitor_holds tr s : run init tr = Some s -> C04_ok tr = true.
+Proof. intros H. apply (c04_from tr init s); [apply inv_init|apply inv2_init|exact H]. Qed.
 
 End Mon.
